@@ -45,18 +45,54 @@ type builder struct {
 	w    *world
 	op   string
 	bufs []*Buf
+	odd  bool // at least one input was given an unusual encoding
+}
+
+// perturb decides, from the plan, whether this constructor input keeps the bytes read from the key or gets an
+// unusual encoding of them: top bit of the last or first byte toggled (ignored bits of X25519 values, sign bits),
+// one drawn bit flipped, a leading zero byte added or removed (big-endian integers). Both worlds perturb alike,
+// so the twin comparison stays exact; what the constructor makes of it (accept or refuse) is an observation, but
+// the caller's buffer must stay what the harness put there, and nothing may panic.
+func (b *builder) perturb(v []byte) []byte {
+	w := b.w
+	w.pertCtr++
+	kind := w.pl.perturb[w.pertCtr%len(w.pl.perturb)]
+	if kind <= 10 || len(v) == 0 {
+		return v
+	}
+	v = append([]byte(nil), v...)
+	switch kind {
+	case 11:
+		v[len(v)-1] ^= 0x80
+	case 12:
+		v[0] ^= 0x80
+	case 13:
+		bit := w.pl.flipPos[w.pertCtr%len(w.pl.flipPos)] % (8 * len(v))
+		v[bit/8] ^= 1 << (bit % 8)
+	case 14:
+		v = append([]byte{0}, v...)
+	case 15:
+		if v[0] != 0 || len(v) == 1 {
+			v[len(v)-1] ^= 0x01
+		} else {
+			v = v[1:]
+		}
+	}
+	b.odd, w.chainOdd = true, true
+	w.r.Probe("odd-encoding")
+	return v
 }
 
 // bytes hands a public value to the constructor as a caller slice.
 func (b *builder) bytes(role string, v []byte) []byte {
-	buf := b.w.in(b.op, role, v, b.w.nextSpare())
+	buf := b.w.in(b.op, role, b.perturb(v), b.w.nextSpare())
 	b.bufs = append(b.bufs, buf)
 	return buf.Slice()
 }
 
 // bytesFor is bytes for a second constructor called in the same breath (signer and verifier, encrypt and decrypt).
 func (b *builder) bytesFor(op, role string, v []byte) []byte {
-	buf := b.w.in(op, role, v, b.w.nextSpare())
+	buf := b.w.in(op, role, b.perturb(v), b.w.nextSpare())
 	b.bufs = append(b.bufs, buf)
 	return buf.Slice()
 }
@@ -64,7 +100,7 @@ func (b *builder) bytesFor(op, role string, v []byte) []byte {
 // secret wraps secret bytes the way a caller has to: secretdata.NewBytesFromData over the caller's slice.
 func (b *builder) secret(role string, s secretdata.Bytes) secretdata.Bytes {
 	const op = "secretdata.NewBytesFromData"
-	buf := b.w.in(op, role, s.Data(tok), b.w.nextSpare())
+	buf := b.w.in(op, role, b.perturb(s.Data(tok)), b.w.nextSpare())
 	b.bufs = append(b.bufs, buf)
 	b.w.setAdd("constructors", op)
 	return secretdata.NewBytesFromData(buf.Slice(), tok)
@@ -106,18 +142,24 @@ func (w *world) construct(op string, orig any, f func(b *builder) (any, error)) 
 	w.done(op)
 	w.obsErr(op, "construct", err)
 	w.setAdd("constructors", op)
+	odd := b.odd || w.chainOdd
 	if err != nil || isNil(v) {
-		if !w.faulted {
+		if odd {
+			w.r.Probe("odd-encoding-refused")
+		} else if !w.faulted {
 			w.fatalf("%s refuses the values read from a key of %s: %v", op, w.pl.ent.name, err)
 		}
 		return nil
+	}
+	if b.odd {
+		w.r.Probe("odd-encoding-accepted")
 	}
 	for _, buf := range b.bufs {
 		w.newTarget(&target{culprit: buf.Op, kind: "input", buf: buf})
 	}
 	eq := equalObj(v, orig)
 	w.obsS(op, "equal-original", fmt.Sprint(eq))
-	if !eq && !w.faulted {
+	if !eq && !w.faulted && !odd {
 		w.fatalf("%s built an object that is not Equal to the one its arguments were read from (%s)", op, w.pl.ent.name)
 	}
 	if len(w.objs) < maxObjs {
@@ -182,12 +224,17 @@ type keyBytes interface{ KeyBytes() secretdata.Bytes }
 // rebuild rebuilds the live key at index ki; the resulting complete key joins the keys handles are made from.
 func (w *world) rebuild(ki int) {
 	k := w.objs[ki].v.(key.Key)
+	w.chainOdd = false
 	_, priv := w.rebuildKey(k)
 	if priv != nil {
 		if i := w.idxOf(priv); i >= 0 && len(w.keys) < 8 {
 			w.keys = append(w.keys, i)
+			if w.chainOdd {
+				w.oddKeys = true
+			}
 		}
 	}
+	w.chainOdd = false
 }
 
 // rebuildKey returns the rebuilt public key (nil for symmetric keys) and the rebuilt private / symmetric key
